@@ -146,7 +146,7 @@ Definition dec_pj (j : json) : pj_input :=
                   | _ => None
                   end;
      pj_auth_events := map dec_auth_event (gl "auth_events" j);
-     pj_store_ok := gb "store_ok" j; pj_check_ok := gb "check_ok" j |}.
+     pj_store_ok := gb "store_ok" j; pj_check_own := gb "check_own" j; pj_check_remote := gb "check_remote" j |}.
 
 (* ---------- the signature marker used by the run (the harness substitutes it for a
    signature it has verified with ed25519 against the local public key) ---------- *)
@@ -264,7 +264,17 @@ Definition prop_invite (args : list bytes) : bytes :=
   end.
 Definition prop_perform_join (args : list bytes) : bytes :=
   match args with
-  | [_; cfg; obs] => with_cfg [cfg; cfg] (fun j => oracle (perform_join_admissible (dec_pj j)) obs)
+  | [_; cfg; obs] =>
+      (* which event came back is read off the observable: joined remote_event_used=0/1 *)
+      let used := is_prefix (bs "joined remote_event_used=1") obs in
+      with_cfg [cfg; cfg] (fun j =>
+        if is_prefix (bs "joined") obs then
+          if is_prefix (bs "joined remote_event_used=") (first_line obs) &&
+             (N.of_nat (length (first_line obs)) =? 26) then
+            if perform_join_admissible (dec_pj j) used then bs "ok"
+            else bs "FAIL joined although the request is not admissible for the join event handed back"
+          else bs "FAIL joined with something that is not a join of the user in the room"
+        else bs "ok")
   | _ => bs "badargs"
   end.
 
